@@ -356,6 +356,11 @@ def run_canaries(scratch, unit, res):
     return {"canaries": n, "vacuous": vac, "wall_s": wall}
 
 
+def common_known(f):
+    import common
+    return common.match_any_known(common.load_known(), f) is not None
+
+
 def run_units(scratch, units, prop, tier, canaries=True):
     """units: list of (unit name, [clause prefixes that count for prop besides '<prop>.'])."""
     out = {"failures": [], "tool": [], "vacuous": [], "units": [], "cmds": [], "trusted": [], "assumptions": [],
@@ -378,8 +383,21 @@ def run_units(scratch, units, prop, tier, canaries=True):
         out["vacuous"] += can["vacuous"]
         out["cmds"].append("xtract <snapshot of /repo> contracts/%s.vrs unit.rs unit.manifest.json && %s" % (unit, res["cmd"]))
         out["trusted"] += res["trusted"]
-        out["obligations"] += res["verified"] + res["errors"]
+        # Proof items of this unit that fail ONLY at obligations recorded as open known findings (of any
+        # property) or at clauses of other properties are not obligations of this property: they are
+        # reported separately (`items_not_counted`), so that obligations == discharged exactly when
+        # every obligation this check claims is discharged.
+        by_fn = {}
+        for f in res["failures"]:
+            by_fn.setdefault(f.get("function"), []).append(f)
+        not_counted = 0
+        for fn, fs in by_fn.items():
+            if all((f in others) or common_known(f) for f in fs):
+                not_counted += 1
+        not_counted = min(not_counted, res["errors"])
+        out["obligations"] += res["verified"] + res["errors"] - not_counted
         out["discharged"] += res["verified"]
+        out["items_not_counted"] = out.get("items_not_counted", 0) + not_counted
         out["units"].append({
             "engine": "verus/z3", "unit": unit, "proof_items_verified": res["verified"], "proof_items_failed": res["errors"],
             "functions_under_contract": res["extracted"], "rewrite_rules_fired": res["rules"],
